@@ -277,6 +277,22 @@ def gen_tree_config(rng) -> dict:
     keys = [rng.choice(["a", "b", "c", "d", "e", "positions", "AT", "NL", "x", "y"]) for _ in range(3 + rng.randrange(4))]
     names = gen_names(rng, nfiles)
     files = {n: _dump(rng, gen_tree(rng, 1 + rng.randrange(4), keys)) for n in names}
+    if rng.random() < 0.3:
+        # a deep chain shared by all files: dict-versus-dict conflicts five to seven levels down
+        depth = 4 + rng.randrange(4)
+        chain = [rng.choice(keys) for _ in range(depth)]
+        for n in names:
+            doc = json.loads(files[n])
+            node = doc
+            for k in chain:
+                nxt = node.get(k) if isinstance(node, dict) else None
+                if not isinstance(nxt, dict):
+                    nxt = {}
+                    node[k] = nxt
+                node = nxt
+            for _ in range(1 + rng.randrange(3)):
+                node[rng.choice(["p", "q", "r", "s"])] = rng.choice([1, 2, "v", [1], {"t": rng.randrange(3)}])
+            files[n] = _dump(rng, doc)
     if rng.random() < 0.4:
         files["README.md"] = "x"
     if rng.random() < 0.2:
